@@ -70,7 +70,7 @@ META = {
             "schemas that do not build cleanly are outside the property and are skipped (counted)",
             "the ordered digest is computed by the harness through apollo's public Schema API; built-in types and unredefined built-in directives are not part of it",
         ],
-        "floors": {"any": {"source": ["special", "extension_interleaving", "corpus", "model_plain", "model_trivia", "smith"],
+        "floors": {"any": {"source": ["special", "default_named_non_object_root", "extension_interleaving", "corpus", "model_plain", "model_trivia", "smith"],
                            "interleaving_kind": ["type", "interface", "enum", "input", "union", "scalar"]}},
         "exhaustive_subspaces": {"quick": ["all orders of {definition} + every subset of 3 (2 for scalar) extensions of one type, for the six type kinds (256 placements)"],
                                  "thorough": ["all orders of {definition} + every subset of 3 (2 for scalar) extensions of one type, for the six type kinds (256 placements)"]},
@@ -156,7 +156,7 @@ META = {
     "C22": {
         "budget": {"quick": 120, "thorough": 900},
         "plugin": "procdiff",
-        "rule": "a seed-derived list of 400 (quick) / 5000 (thorough) inputs — hand-written diagnostics-rich documents with every problem at >= 3 (here 6) distinct names, corpus diagnostics/ok files, "
+        "rule": "a seed-derived list of 5000 (quick) / 40000 (thorough) inputs — hand-written diagnostics-rich documents with every problem at >= 3 (here 6) distinct names, corpus diagnostics/ok files, "
                 "valid and token-mutated model documents, apollo-smith byte strings — is processed by EVERY worker process (16 independent processes, each with its own random hash seeds); per input 9 outputs are digested "
                 "(schema serialization, schema diagnostics with positions, executable serialization and diagnostics, mixed and standalone diagnostics, introspection JSON, multi-file build diagnostics, smith document) "
                 "and the per-process logs are compared offline; each worker also computes everything twice. distinct_nontrivial = distinct inputs with >= 2 non-empty outputs (counted once although every process handles them)",
@@ -168,7 +168,7 @@ META = {
                                                      "standalone_diagnostics", "introspection_json", "multi_file_diagnostics", "smith_document"],
                            "source": ["rich", "corpus_diagnostics", "model_valid", "model_mutant", "smith_bytes"]}},
         "technique": "runtime monitoring: offline checker over per-process output-digest logs from 16 independently hash-seeded processes",
-        "level_text": "Exploration: the same 400-5000 inputs are compiled, validated, serialized and introspected in 16 independent processes and all outputs compared byte-wise through digests.",
+        "level_text": "Exploration: the same 5000-40000 inputs are compiled, validated, serialized and introspected in 16 independent processes and all outputs compared byte-wise through digests.",
         "level_note": "Compares digests (64-bit FNV) rather than full outputs; a collision could hide a difference with probability ~2^-64 per comparison.",
         "design_ref": "DESIGN.md section 6, C22",
     },
